@@ -759,6 +759,8 @@ func checkGRPCStatus(headers http.Header, printer internal.Printer) { //nolint:g
 			statusCode = &code
 			if code < 0 || code > 16 {
 				printer.Printf("trailers include invalid 'grpc-status' value %d: should be >= 0 && <= 16", code)
+			} else if statusStr[0] == '+' || statusStr[0] == '-' {
+				printer.Printf("trailers include invalid 'grpc-status' value %q: should consist of digits only", statusStr)
 			}
 		}
 	}
